@@ -609,8 +609,18 @@ where T: Canon + Deserialize<'static>
     // the convenience entry point must agree with the explicit Deserializer
     let r2: Result<T, _> = minicbor_serde::from_slice(input);
     let same = match (&r, &r2) { (Ok(a), Ok(b)) => a.show() == b.show(), (Err(a), Err(b)) => classify_text(&a.to_string()) == classify_text(&b.to_string()), _ => false };
+    // a Deserializer made from a natively positioned Decoder (mixed messages) starts where that decoder stands
+    let mut pre = vec![0x18u8, 0x2a]; pre.extend_from_slice(inp);
+    let pre = leak(&pre);
+    let mut nd = minicbor::Decoder::new(pre);
+    nd.set_position(2);
+    let mut d3 = minicbor_serde::Deserializer::from(nd);
+    let r3 = T::deserialize(&mut d3);
+    let pos3 = d3.decoder().position();
+    let same3 = pos3 == pos + 2 && match (&r, &r3) { (Ok(a), Ok(b)) => a.show() == b.show(), (Err(a), Err(b)) => classify_text(&a.to_string()) == classify_text(&b.to_string()), _ => false };
     let verdict = if pos > inp.len() { Err(format!("position {} beyond input", pos)) }
-                  else if !same { Err("minicbor_serde::from_slice disagrees with Deserializer::new + deserialize".into()) } else { Ok(()) };
+                  else if !same { Err("minicbor_serde::from_slice disagrees with Deserializer::new + deserialize".into()) }
+                  else if !same3 { Err(format!("Deserializer::from(decoder at position 2) does not continue from there (ends at {} instead of {})", pos3, pos + 2)) } else { Ok(()) };
     with_oracle(show_sres(r, pos, |x| x.show()), verdict)
 }
 
